@@ -2,6 +2,8 @@
 C19 — ofxget requests exactly the configured or discovered accounts and given dates.
 -/
 import OfxProofs.Lemmas.Ofxget
+import OfxProofs.Lemmas.OfxgetStmt
+import OfxProofs.Lemmas.OfxgetAll
 import OfxProofs.Gen.Ofxget
 
 namespace Ofx.Ofxget
@@ -54,6 +56,122 @@ theorem C19_discovered_rank (cli : Map) (rest : List Map) (infos : List AcctInfo
   simp [hm, bind, Except.bind, pure, Except.pure, pyInsert_one] at h
   exact h.symm
 
+/-! ### configured accounts -/
+
+/-- **C19_configured** (`ofxget stmt`).  For every mapping without `--all` whose six account-type options hold
+    lists `a` and whose include flags are `t oo pos bal`: if `request_stmt` gets as far as calling the client, the
+    request tuples are exactly the declarative list `specStmt` — one per configured id, bank types in the order
+    checking, savings, moneymrkt, creditline with `accttype` the upper-cased option name, then credit cards, then
+    investment accounts, each with the converted dates and the flags — in that order, none missing, duplicated or
+    of another kind; the client is built from the same mapping, in particular with the configured bank id and
+    broker id (or `None` when empty). -/
+theorem C19_configured {δ : Type} (D : Option Str → PyM (Option δ)) (args : Chain) (acct : PyM (List AcctInfo))
+    (a : Accounts) (t oo pos bal v b k : CfgVal)
+    (hall : args.get? "all".toList = some v) (hnot : truthy v = false)
+    (ha : HasAccounts args a) (hf : HasFlags args t oo pos bal)
+    (hb : args.get? "bankid".toList = some b) (hk : args.get? "brokerid".toList = some k)
+    (p : Plan δ) (h : requestStmt D args acct = .ok p) :
+    ∃ dt, convertDatetime D args = .ok dt ∧
+      p.requests = specStmt a ⟨dt.start, dt.end, dt.asof, t, oo, pos, bal⟩ ∧
+      p.client.lookup "bankid".toList = some (orNone b) ∧ p.client.lookup "brokerid".toList = some (orNone k) := by
+  obtain ⟨dt, hdt, hrq, hcl, _⟩ := requestStmt_configured D args acct a t oo pos bal v hall hnot ha hf p h
+  have := initClient_ids args p.client hcl b k hb hk
+  exact ⟨dt, hdt, hrq, this.1, this.2⟩
+
+/-- **C19_configured** (`ofxget stmtend`): bank and credit-card accounts only, no flags. -/
+theorem C19_configured_stmtend {δ : Type} (D : Option Str → PyM (Option δ)) (args : Chain) (acct : PyM (List AcctInfo))
+    (a : Accounts) (v : CfgVal)
+    (hall : args.get? "all".toList = some v) (hnot : truthy v = false)
+    (ha : HasAccounts args a)
+    (p : Plan δ) (h : requestStmtend D args acct = .ok p) :
+    ∃ dt, convertDatetime D args = .ok dt ∧
+      p.requests = specStmtend a ⟨dt.start, dt.end, dt.asof, .null, .null, .null, .null⟩ := by
+  unfold requestStmtend at h
+  simp only [bind, Except.bind] at h
+  cases hdt : convertDatetime D args with
+  | error e => rw [hdt] at h; cases h
+  | ok dt =>
+    rw [hdt] at h
+    simp only at h
+    cases hdry : args.getItem "dryrun".toList with
+    | error e => rw [hdry] at h; cases h
+    | ok d =>
+      rw [hdry] at h
+      simp only [discover_no_all args acct v hall hnot,
+        stmtendRequests_eq dt args a ha ⟨dt.start, dt.end, dt.asof, .null, .null, .null, .null⟩ rfl rfl] at h
+      cases hc : initClient args with
+      | error e => rw [hc] at h; cases h
+      | ok cl =>
+        rw [hc] at h
+        simp only [pure, Except.pure, Except.ok.injEq] at h
+        subst h
+        exact ⟨dt, rfl, rfl⟩
+
+/-! ### `--all` -/
+
+/-- **C19_all_active.**  `ofxget stmt --all` with no account named on the command line: for every configuration
+    underneath and every account-information response (account types in ACCTTYPES), if the request is composed,
+    then under `NoFallback` (no account-type key the response is silent about is configured further down) the
+    accounts requested are, as a multiset, exactly those the response lists as ACTIVE of requestable types. -/
+theorem C19_all_active {δ : Type} (D : Option Str → PyM (Option δ)) (cli : Map) (rest : Chain)
+    (infos : List AcctInfo) (p : Plan δ) (v : CfgVal)
+    (hall : Chain.get? (cli :: rest) "all".toList = some v) (ht : truthy v = true)
+    (hcli : ∀ t ∈ acctKeys, cli.lookup t = none)
+    (hv : ValidInfos infos) (hg : NoFallback rest infos)
+    (h : requestStmt D (cli :: rest) (.ok infos) = .ok p) :
+    (p.requests.map rqAcct).Perm (specActive false infos) :=
+  requestStmt_all_active D cli rest infos p v hall ht hcli hv hg h
+
+/-- **C19_all_active** for `ofxget stmtend --all` -/
+theorem C19_all_active_stmtend {δ : Type} (D : Option Str → PyM (Option δ)) (cli : Map) (rest : Chain)
+    (infos : List AcctInfo) (p : Plan δ) (v : CfgVal)
+    (hall : Chain.get? (cli :: rest) "all".toList = some v) (ht : truthy v = true)
+    (hcli : ∀ t ∈ closingKeys, cli.lookup t = none)
+    (hv : ValidInfos infos) (hg : NoFallbackClosing rest infos)
+    (h : requestStmtend D (cli :: rest) (.ok infos) = .ok p) :
+    (p.requests.map rqAcct).Perm (specActive true infos) :=
+  requestStmtend_all_active D cli rest infos p v hall ht hcli hv hg h
+
+/-- **C19_never_inactive_partial.**  Under the same guard every account requested with `--all` is one the response
+    lists as ACTIVE (hence never one it lists only with another status). -/
+theorem C19_never_inactive_partial {δ : Type} (D : Option Str → PyM (Option δ)) (cli : Map) (rest : Chain)
+    (infos : List AcctInfo) (p : Plan δ) (v : CfgVal)
+    (hall : Chain.get? (cli :: rest) "all".toList = some v) (ht : truthy v = true)
+    (hcli : ∀ t ∈ acctKeys, cli.lookup t = none)
+    (hv : ValidInfos infos) (hg : NoFallback rest infos)
+    (h : requestStmt D (cli :: rest) (.ok infos) = .ok p) :
+    ∀ r ∈ p.requests, ∃ inf ∈ infos, requestable false inf = some (rqAcct r) := by
+  intro r hr
+  exact listed_active_of_perm false infos _ (C19_all_active D cli rest infos p v hall ht hcli hv hg h) (rqAcct r)
+    (List.mem_map_of_mem hr)
+
+theorem C19_never_inactive_partial_stmtend {δ : Type} (D : Option Str → PyM (Option δ)) (cli : Map) (rest : Chain)
+    (infos : List AcctInfo) (p : Plan δ) (v : CfgVal)
+    (hall : Chain.get? (cli :: rest) "all".toList = some v) (ht : truthy v = true)
+    (hcli : ∀ t ∈ closingKeys, cli.lookup t = none)
+    (hv : ValidInfos infos) (hg : NoFallbackClosing rest infos)
+    (h : requestStmtend D (cli :: rest) (.ok infos) = .ok p) :
+    ∀ r ∈ p.requests, ∃ inf ∈ infos, requestable true inf = some (rqAcct r) := by
+  intro r hr
+  exact listed_active_of_perm true infos _ (C19_all_active_stmtend D cli rest infos p v hall ht hcli hv hg h)
+    (rqAcct r) (List.mem_map_of_mem hr)
+
+/-- the guard is satisfiable by a non-trivial situation: a response with an ACTIVE checking account and a PEND
+    savings account, over a configuration that lists a *checking* account (shadowed by the discovered one) -/
+example : NoFallback [[("checking".toList, .list ["OLD".toList])], Generated.ofxgetTables.defaults]
+    [.bank "1".toList "C1".toList "CHECKING".toList "ACTIVE".toList,
+     .bank "1".toList "S1".toList "SAVINGS".toList "PEND".toList] := by
+  unfold NoFallback
+  decide +kernel
+
+example : ValidInfos [.bank "1".toList "C1".toList "CHECKING".toList "ACTIVE".toList, .cc "K".toList "PEND".toList] := by
+  intro inf hinf
+  simp only [List.mem_cons, List.mem_nil_iff, or_false] at hinf
+  rcases hinf with rfl | rfl
+  · show "CHECKING".toList ∈ validAcctTypes
+    decide
+  · trivial
+
 /-! ### `--all` never requests an inactive account: false at full strength -/
 
 /-- does a run of `ofxget stmt` request an account that the response lists with a status other than ACTIVE? -/
@@ -71,8 +189,7 @@ def failsWithActive (args : Chain) (infos : List AcctInfo) : Bool :=
 def C19_never_inactive_full : Prop :=
   ∀ (cli user : Map) (infos : List AcctInfo), cli.lookup "all".toList = some (.bool true) →
     (∀ k ∈ bankTypes ++ ["creditcard".toList, "investment".toList, "bankid".toList, "brokerid".toList], cli.lookup k = none) →
-    requestsInactive [cli, user, Generated.ofxgetTables.defaults] infos = false ∧
-    failsWithActive [cli, user, Generated.ofxgetTables.defaults] infos = false
+    requestsInactive [cli, user, Generated.ofxgetTables.defaults] infos = false
 
 def wCli : Map := [("all".toList, .bool true), ("url".toList, .str "https://h/".toList)]
 
@@ -84,17 +201,18 @@ theorem C19_falls_back_witness :
        .bank "1".toList "S1".toList "SAVINGS".toList "PEND".toList] = true := by
   decide +kernel
 
-/-- witness: bank accounts listed, none ACTIVE, an ACTIVE credit card: `collapseToSingle([])` raises -/
-theorem C19_no_active_bank_witness :
+/-- repaired (`fix: ofxget --all does not fail when the server lists no ACTIVE bank or investment account`):
+    bank accounts listed, none ACTIVE, an ACTIVE credit card — the request is composed (for the credit card) -/
+theorem C19_no_active_bank_fixed :
     failsWithActive [wCli, [], Generated.ofxgetTables.defaults]
-      [.bank "1".toList "C1".toList "CHECKING".toList "PEND".toList, .cc "K1".toList "ACTIVE".toList] = true := by
+      [.bank "1".toList "C1".toList "CHECKING".toList "PEND".toList, .cc "K1".toList "ACTIVE".toList] = false := by
   decide +kernel
 
 theorem C19_never_inactive_full_false : ¬ C19_never_inactive_full := by
   intro h
   have := (h wCli [("savings".toList, .list ["S1".toList])]
       [.bank "1".toList "C1".toList "CHECKING".toList "ACTIVE".toList,
-       .bank "1".toList "S1".toList "SAVINGS".toList "PEND".toList] (by decide +kernel) (by decide +kernel)).1
+       .bank "1".toList "S1".toList "SAVINGS".toList "PEND".toList] (by decide +kernel) (by decide +kernel))
   rw [C19_falls_back_witness] at this
   cases this
 
